@@ -99,7 +99,7 @@ def _fidelity_witness(p, hh, rng):
                 t = rng.uniform(-1, 1) * (1.0 if attempt == 0 else 0.5)
                 w = 0.35 if attempt == 0 else 0.6
                 s.add(v >= z3.RealVal(repr(round(t - w, 3))), v <= z3.RealVal(repr(round(t + w, 3))))
-        if s.check() != z3.sat:
+        if solve.guarded_check(s, 3000) != z3.sat:
             continue
         m = s.model()
         env = {}
@@ -173,6 +173,7 @@ def _sym_worker(pid, hname, tier, conn, quick_ms, roots=None):
         h = REGISTRY[hname]
         proxy.patch()
         trig.reset_granularity()
+        CTX.max_decisions = h.max_decisions
         cur = [None]
 
         def fn():
